@@ -16,7 +16,7 @@ func verifExtAutomaton(api *rapid.VerifExtAPI, name string, internal bool, L int
 	const (
 		sNone = iota // not registered
 		sRegistered
-		sRunning // received at least one event
+		sRunning   // received at least one event
 		sFinalInit // init/error reported
 		sFinalExit // exit/error reported
 	)
@@ -195,7 +195,9 @@ func VerifC13ExitWhileParked() {
 			parkedStatus = s
 		})
 		// wait until the second next has been issued and the first invocation is complete
-		verifWaitUntil(func() bool { return f.w.Count("caller", "invoke-end", "") >= 1 && f.w.Count("extension-ext0-1", "next-issued", "") >= 2 })
+		verifWaitUntil(func() bool {
+			return f.w.Count("caller", "invoke-end", "") >= 1 && f.w.Count("extension-ext0-1", "next-issued", "") >= 2
+		})
 		st2, _ := api.ExitError(id, "Extension.Bye")
 		verifAssert(st2 == 202, "exit/error is accepted while another request is parked in next")
 		exitReported = true
